@@ -30,6 +30,7 @@ func c12(c *eng.Ctx, r *eng.Report) {
 		"R12.3 the readOnly flag is only set/reset inside Run under `readOnly && !in.readOnly`; " +
 		"R12.4 AccountDB.Prepare re-initialises every per-transaction scratch field and the block executor calls it before each transaction's BeforeExecute and reads logs by the same hash; " +
 		"R12.5 every raw state mutation is preceded by its journal entry on every path (C04's R4.2 re-run: RevertToSnapshot can only undo what was journaled). " +
+		"R12.9 a creation that is refused before it has a frame changes nothing: the creator's nonce is written only inside (*EVM).create (and AuthCall's reviewed bump), there only after the call-depth test and the CanTransfer test have passed, and the wrappers Create/Create2 write no state themselves — a CREATE with an endowment above the balance, or at depth 1025, leaves the nonce and the state root as they were; " +
 		"R12.7 a frame's snapshot is taken before the frame changes anything: in Call, CallCode, DelegateCall, StaticCall, AuthCall and create every call that can reach a raw state setter (value transfer, account creation — directly or through a helper) is dominated by StateDB.Snapshot(); the reviewed exceptions are the nonce bumps of create and AuthCall and create's access-list entry, which survive a failed frame by design; " +
 		"R12.8 journal entries do not alias a reusable buffer: GetERC20Key returns a slice of an array allocated in that call (C06's R6.9 here: the journal keeps the key slice, so a shared buffer makes every entry of a failing frame point at the key derived last and the revert restores balances into the wrong slot); " +
 		"R12.6 every journal entry's undo performs exactly its paired raw writes, each on every path, and nothing else (C04's R4.3 re-run: a failed frame leaves no trace only if the undo neither skips a restore nor edits state the entry did not record, such as the set of slots still to be flushed). " +
@@ -57,6 +58,7 @@ func c12(c *eng.Ctx, r *eng.Report) {
 	// undo neither skips a restore nor touches state the entry did not record, e.g. the flush set)
 	c04UndoAs(c, r, "R12.6", nil, 12)
 	c12SnapshotFirst(c, r)
+	c12NonceAfterChecks(c, r)
 	// R12.8: what the journal records must stay what it was when recorded — the key slice of a balance write is
 	// the caller's own (C06's R6.9 under this property's id: a frame that moved value and fails is undone slot by slot)
 	c06BalanceKeyFreshAs(c, r, "R12.8")
@@ -686,5 +688,87 @@ func c12SnapshotFirst(c *eng.Ctx, r *eng.Report) {
 			bad = mutates + " at " + c.Pos(s.Pos())
 		}
 		r.Check(bad == "", rule, "snapshot-first:"+name, c.Pos(fn.Pos()), "every state change of the frame set-up is dominated by Snapshot()", name+" changes state before taking the frame snapshot: "+bad+" is not dominated by StateDB.Snapshot() — when the callee fails, RevertToSnapshot rolls its writes back but not this one (the callee keeps the value it was sent, or an account created for it stays)")
+	}
+}
+
+// c12NonceAfterChecks: see R12.9.
+func c12NonceAfterChecks(c *eng.Ctx, r *eng.Report) {
+	const rule = "R12.9"
+	r.Min(rule, 3)
+	allowed := map[string]string{
+		"(*vm.EVM).create":   "the creator's nonce bump, after the pre-flight checks",
+		"(*vm.EVM).AuthCall": "replay protection of the authorisation (reviewed in R12.7)",
+	}
+	isWrite := func(m string) bool {
+		switch m {
+		case "CreateAccount", "AddBalance", "SubBalance", "SetBalance", "SetNonce", "SetCode", "SetState", "SetData", "Suicide", "AddLog", "SetTransientState":
+			return true
+		}
+		return false
+	}
+	n := 0
+	for _, fn := range c.PkgFuncs("vm") {
+		for _, s := range eng.Sites(fn) {
+			if !s.Common().IsInvoke() || s.Common().Method.Name() != "SetNonce" || !strings.HasSuffix(s.Common().Value.Type().String(), "StateDB") {
+				continue
+			}
+			n++
+			why, ok := allowed[eng.FuncName(fn)]
+			r.Check(ok, rule, "nonce-writer:"+eng.FuncName(fn), c.Pos(s.Pos()), why, eng.FuncName(fn)+" writes an account nonce outside the frame functions: a helper called before create()'s depth, balance and whitelist checks bumps the creator's nonce for a creation that is then refused without a frame — the nonce and the state root change across a failed CREATE and later CREATE addresses shift")
+		}
+	}
+	if n == 0 {
+		r.Fail(rule, "nonce-writer:none", "", "no StateDB.SetNonce call in package vm: the rule has lost its anchor")
+	}
+	if create := c.Func("vm", "(*EVM).create"); r.Anchor(create != nil, rule, "vm.(*EVM).create") {
+		for _, s := range eng.Sites(create) {
+			if !s.Common().IsInvoke() || s.Common().Method.Name() != "SetNonce" {
+				continue
+			}
+			afterSnap := false
+			for _, s2 := range eng.Sites(create) {
+				if s2.Common().IsInvoke() && s2.Common().Method.Name() == "Snapshot" && eng.Dominates(s2.Instr, s.Instr) {
+					afterSnap = true
+				}
+			}
+			if afterSnap {
+				continue // the new account's own nonce, inside the frame
+			}
+			depth, funds := false, false
+			for _, cd := range eng.CondsAt(s.Instr) {
+				d := eng.Desc(cd.V)
+				if strings.Contains(d, ".depth") {
+					depth = true
+				}
+				v := cd.V
+				if u, isU := v.(*ssa.UnOp); isU && u.Op == token.NOT {
+					v = u.X
+				}
+				if call, isCall := v.(*ssa.Call); isCall && strings.Contains(eng.Desc(call.Call.Value), "CanTransfer") {
+					funds = true
+				}
+			}
+			r.Check(depth && funds, rule, "nonce-after-checks:create", c.Pos(s.Pos()), "the nonce bump is dominated by the depth test and the CanTransfer test", fmt.Sprintf("create() bumps the creator's nonce before its pre-flight checks have passed (depth test in force: %v, CanTransfer test in force: %v): a creation refused for depth or insufficient balance has no frame to revert, so the bump stays", depth, funds))
+		}
+	}
+	for _, name := range []string{"(*EVM).Create", "(*EVM).Create2"} {
+		fn := c.Func("vm", name)
+		if !r.Anchor(fn != nil, rule, "vm."+name) {
+			continue
+		}
+		bad := ""
+		for _, s := range eng.Sites(fn) {
+			if s.Common().IsInvoke() && isWrite(s.Common().Method.Name()) {
+				bad = "StateDB." + s.Common().Method.Name() + " at " + c.Pos(s.Pos())
+			}
+			if callee := s.Common().StaticCallee(); callee != nil && eng.InMod(callee) && strings.HasSuffix(eng.FuncPkgPath(callee), "/src/vm") && callee.Name() != "create" && callee.Blocks != nil {
+				for _, s2 := range eng.Sites(callee) {
+					if s2.Common().IsInvoke() && isWrite(s2.Common().Method.Name()) {
+						bad = eng.FuncName(callee) + " → StateDB." + s2.Common().Method.Name() + " at " + c.Pos(s2.Pos())
+					}
+				}
+			}
+		}
+		r.Check(bad == "", rule, "wrapper-writes-nothing:"+name, c.Pos(fn.Pos()), "the wrapper only derives the address and calls create", name+" changes state before create() has run its pre-flight checks ("+bad+"): a creation refused there keeps the change")
 	}
 }
